@@ -19,9 +19,9 @@ Local Open Scope Z_scope.
 (* ------------------------------------------------------------------ characters *)
 Definition isdigit (c : Z) : bool := (48 <=? c) && (c <=? 57).
 Definition isspace (c : Z) : bool := ((9 <=? c) && (c <=? 13)) || (c =? 32).   (* C locale *)
-(* value of a digit character in base 10 or 16 (GMP isfuns.cc: isdigit / isxdigit) *)
+(* value of a digit character in base 8, 10 or 16 (GMP isfuns.cc: isdigit / isxdigit / '0'..'7') *)
 Definition digval (base c : Z) : option Z :=
-  if isdigit c then Some (c - 48)
+  if isdigit c then (if (base =? 8) && (55 <? c) then None else Some (c - 48))     (* '8', '9' are not octal digits *)
   else if base =? 16 then
     if (97 <=? c) && (c <=? 102) then Some (c - 87)
     else if (65 <=? c) && (c <=? 70) then Some (c - 55) else None
@@ -126,6 +126,9 @@ Definition Integer_to_string (z : Z) : list Z := Integer_print z.   (* operator 
 (* absOutput: mpz_get_str, then skip the first character when sign(n) < 0 *)
 Definition Integer_absOutput (z : Z) : list Z :=
   if z <? 0 then match print_Z z with _ :: t => t | [] => [] end else print_Z z.
+(* operator<< / operator>> on a stream whose basefield is hex or oct: GMP prints sign and magnitude in that base *)
+Definition Integer_out_base (base z : Z) : list Z :=
+  if z <? 0 then 45 :: print_nat_base base (- z) else print_nat_base base z.
 Definition Integer_in (s : stream) (old : Z) : Z * stream := gmp_read 10 s old.   (* inp >> (mpz_ptr) *)
 
 (* mpz_set_str (x, str, 10): leading white space, optional '-', first character a digit, then digits with
@@ -372,6 +375,8 @@ Definition x_int_abs (z : Z) := Integer_absOutput z.
 Definition x_int_of_string (l : list Z) := Integer_of_string l.
 Definition x_int_rt (z old : Z) (tail : list Z) :=
   let t := Integer_out z in (t, x_int_read (t ++ tail) old).
+Definition x_int_rtb (base z old : Z) (tail : list Z) :=
+  let t := Integer_out_base base z in (t, x_int_read_base base (t ++ tail) old).
 Definition x_int_seq (n : nat) (l : list Z) :=
   let '(xs, s) := read_many (fun s => Integer_in s 0) n (from_chars l) in (xs, rest s, eofb s, failb s).
 Definition x_rat_read (l : list Z) :=
